@@ -73,6 +73,7 @@ type State struct {
 	alloc     string
 	pc        string
 	held      map[string]int
+	answered  map[string]string // HTTP response writers (by term): ghost state 0 nothing sent, 1 body written, 2 status sent, 3 error answer sent (single-answer obligations)
 }
 
 func (s *State) clone() *State {
@@ -95,6 +96,12 @@ func (s *State) clone() *State {
 	}
 	for k, v := range s.held {
 		n.held[k] = v
+	}
+	if len(s.answered) > 0 {
+		n.answered = make(map[string]string, len(s.answered))
+		for k, v := range s.answered {
+			n.answered[k] = v
+		}
 	}
 	return n
 }
@@ -324,7 +331,7 @@ func (u *Unit) oblige(f *Frame, st *State, kind, text, goal string, pos token.Po
 	}
 	if u.con != nil && u.con.Wiring && !u.con.Keep[kind] && !(f != nil && f.depth == 0 && u.con.KeepText[kind][text]) && !(kind == "pre" && os.Getenv("GOVC_WIRING_PRE") != "") {
 		switch kind {
-		case "index", "nil", "slice", "divzero", "makeslice", "typeassert", "nilmap", "arith", "wrap", "pre", "panic", "guarded-read", "guarded-write", "unlock-unheld", "double-lock":
+		case "index", "nil", "slice", "divzero", "makeslice", "typeassert", "nilmap", "arith", "wrap", "pre", "panic", "guarded-read", "guarded-write", "unlock-unheld", "double-lock", "single-answer":
 			// wiring-only unit: memory safety of this function is not claimed
 			return
 		}
@@ -760,6 +767,29 @@ func (u *Unit) runFunc(fn *ssa.Function, args []Val, st *State, parent *Frame, p
 				if con != nil {
 					ls = con.Loops[lc.ord]
 				}
+				// the HTTP answer ghost state is kept across the loop cut: an iteration that goes
+				// round must leave it as it found it (answers inside loops end in a return)
+				if lc.head != nil {
+					aks := map[string]bool{}
+					for k := range bs.answered {
+						aks[k] = true
+					}
+					for k := range lc.head.answered {
+						aks[k] = true
+					}
+					for _, k := range sortedKeys(aks) {
+						hv, bv := "0", "0"
+						if v, ok := lc.head.answered[k]; ok {
+							hv = v
+						}
+						if v, ok := bs.answered[k]; ok {
+							bv = v
+						}
+						if hv != bv {
+							u.oblige(f, bs, "single-answer", fmt.Sprintf("loop%d: answered inside the loop without leaving it", lc.ord), fmt.Sprintf("(= %s %s)", bv, hv), token.NoPos)
+						}
+					}
+				}
 				if ls != nil {
 					bpos := token.NoPos
 					for _, pi := range b.Instrs {
@@ -957,6 +987,40 @@ func (u *Unit) merge(ins []edgeState) *State {
 			u.em.assert(implies(e.guard, fmt.Sprintf("(= %s %s)", n, e.st.alloc)))
 		}
 		out.alloc = n
+	}
+	// HTTP answer ghost state
+	ak := map[string]bool{}
+	for _, e := range ins {
+		for k := range e.st.answered {
+			ak[k] = true
+		}
+	}
+	for _, k := range sortedKeys(ak) {
+		get := func(s *State) string {
+			if v, ok := s.answered[k]; ok {
+				return v
+			}
+			return "0"
+		}
+		first := get(ins[0].st)
+		same := true
+		for _, e := range ins[1:] {
+			if get(e.st) != first {
+				same = false
+			}
+		}
+		if out.answered == nil {
+			out.answered = map[string]string{}
+		}
+		if same {
+			out.answered[k] = first
+			continue
+		}
+		n := u.em.fresh("answered", "Int")
+		for _, e := range ins {
+			u.em.assert(implies(e.guard, fmt.Sprintf("(= %s %s)", n, get(e.st))))
+		}
+		out.answered[k] = n
 	}
 	// locks: keep only those equal on all paths
 	for k, v := range out.held {
